@@ -424,6 +424,9 @@ func runC19(t *testing.T, res *report.Result) {
 			c.transaction(specials()[0], ss, true)
 		}
 	}
+	if mine() {
+		c.actionMachines()
+	}
 	pb := pBases(res.Thorough())
 	for i, b := range pb {
 		if !mine() {
@@ -455,6 +458,10 @@ func runC19(t *testing.T, res *report.Result) {
 
 func replayC19(t *testing.T, res *report.Result, rp replay) {
 	c := &c19{res: res, verbose: true, printed: map[string]bool{}}
+	if rp.Check == "actionmachine" {
+		c.actionMachines()
+		return
+	}
 	if rp.Type == "Params" {
 		for _, b := range pBases(true) {
 			if b.name() == rp.Base {
